@@ -273,7 +273,10 @@ def h_linspace(I, args, kw, st, n):
     a, b, num = _x(args[0]), _x(args[1]), _x(args[2] if len(args) > 2 else kw.get("num"))
     if a is None or b is None or num is None: return Opaque("linspace")
     v = fresh("i")
-    return Arr([(v, num)], a + (b - a) * X.var(v) / (num - 1))
+    ep = kw.get("endpoint", args[3] if len(args) > 3 else True)
+    if ep is not True and ep is not False: return Opaque("linspace(endpoint=<expression>)")
+    if num.as_int() == 1: return Arr([(v, num)], a)                    # a single point is the start value (no division by num - 1)
+    return Arr([(v, num)], a + (b - a) * X.var(v) / ((num - 1) if ep else num))
 
 
 def h_logspace(I, args, kw, st, n):
@@ -759,6 +762,34 @@ def h_globals(I, a, k, st, n):
     return DictVal(dict(g), open_=True)
 
 
+def h_norm(I, a, k, st, n):
+    """np.linalg.norm: Euclidean norm of a vector, or of the columns / rows of a matrix along `axis` (ord=None only)."""
+    if k.get("ord") is not None or (len(a) > 1 and a[1] is not None): return Opaque("np.linalg.norm(ord=)")
+    A = _arr(a[0], st) if isinstance(a[0], LocalArr) else as_arr(a[0]) if isinstance(a[0], (Arr, ArrParam)) else None
+    if A is None or is_opaque(A): return Opaque("np.linalg.norm of a non-array")
+    ax = k.get("axis", a[2] if len(a) > 2 else None)
+    keep = k.get("keepdims", False) is True
+    sq = lambda x: (x * x.conj())
+
+    def root(x):
+        try: return x.sqrt()
+        except Unknown: return mk_fn("sqrt", [x])
+    if A.ndim == 1 and ax is None:
+        (v, c), = A.axes
+        return lift1(root, sum_over(v, c, lift1(sq, A.body)))
+    axx = to_x(ax).as_int() if ax is not None and to_x(ax) is not None else None
+    if A.ndim == 2 and axx in (0, 1, -1, -2):
+        axx %= 2
+        (v0, c0), (v1, c1) = A.axes
+        red, other = ((v0, c0), (v1, c1)) if axx == 0 else ((v1, c1), (v0, c0))
+        body = lift1(root, sum_over(red[0], red[1], lift1(sq, A.body)))
+        if keep:
+            one = (fresh("u"), X.const(1))
+            return Arr([one, other] if axx == 0 else [other, one], body)
+        return Arr([other], body)
+    return Opaque("np.linalg.norm of this shape / axis")
+
+
 def h_squeeze(I, a, k, st, n):
     """np.squeeze drops every axis of length 1 (an axis of symbolic length is a generic one and stays)."""
     o = a[0]
@@ -903,6 +934,7 @@ _reg("numpy.pad", h_pad)
 _reg("numpy.correlate", h_correlate)
 _reg("numpy.allclose", h_allclose)
 _reg("numpy.squeeze", h_squeeze)
+_reg("numpy.linalg.norm", h_norm)
 _reg("builtins.globals", h_globals)
 _reg("numpy.take", h_take)
 _reg("numpy.broadcast_to", h_broadcast_to)
